@@ -12,6 +12,7 @@ package simrt
 import (
 	"runtime"
 	"strings"
+	"sync"
 )
 
 // Map perturbation kinds (tape value -> kind). 0 is always "canonical".
@@ -102,7 +103,10 @@ type sim struct {
 	rng   uint64
 	stats Stats
 
-	occ map[string]int
+	occ       ctab
+	faults    ctab
+	sitesSeen ctab
+	sitesHit  ctab
 
 	// scheduler
 	tasks     []taskState
@@ -113,11 +117,77 @@ type sim struct {
 	// clock
 	ms      int64
 	entropy uint64
-	issued  map[[16]byte]bool
-	onceTab map[uintptr]*onceState
+	issued  [][16]byte
+	onceTab []onceState
 }
 
-type onceState struct{ running bool }
+type onceState struct {
+	key     uintptr
+	running bool
+}
+
+// ctab is a string -> counter table built on slices only. Go maps cannot be
+// used for state that simulated tasks touch: the runtime's map functions carry
+// their own race annotations, which //go:norace does not switch off, so the
+// race detector would see the tasks "racing" on the simulator's bookkeeping.
+type ctab struct {
+	keys []string
+	vals []int64
+	n    int
+}
+
+//go:norace
+func (t *ctab) slot(k string) int {
+	if len(t.keys) == 0 {
+		t.keys = make([]string, 64)
+		t.vals = make([]int64, 64)
+	}
+	mask := len(t.keys) - 1
+	i := int(hashString(0xcbf29ce484222325, k)) & mask
+	for t.keys[i] != "" && t.keys[i] != k {
+		i = (i + 1) & mask
+	}
+	return i
+}
+
+//go:norace
+func (t *ctab) add(k string, d int64) int64 {
+	i := t.slot(k)
+	if t.keys[i] == "" {
+		if (t.n+1)*2 > len(t.keys) {
+			t.grow()
+			i = t.slot(k)
+		}
+		t.keys[i] = k
+		t.n++
+	}
+	t.vals[i] += d
+	return t.vals[i]
+}
+
+//go:norace
+func (t *ctab) grow() {
+	ok, ov := t.keys, t.vals
+	t.keys = make([]string, 2*len(ok))
+	t.vals = make([]int64, 2*len(ok))
+	for i, k := range ok {
+		if k != "" {
+			j := t.slot(k)
+			t.keys[j] = k
+			t.vals[j] = ov[i]
+		}
+	}
+}
+
+func (t *ctab) toMap() map[string]int64 {
+	m := make(map[string]int64, t.n)
+	for i, k := range t.keys {
+		if k != "" {
+			m[k] = t.vals[i]
+		}
+	}
+	return m
+}
 
 var cur *sim
 
@@ -145,16 +215,10 @@ func splitmix(x *uint64) uint64 {
 func Begin(cfg Config) {
 	s := &sim{cfg: cfg, rng: cfg.Seed, turn: -2}
 	s.tape = append([]uint32(nil), cfg.Tape...)
-	s.occ = make(map[string]int)
-	s.stats.Faults = make(map[string]int64)
-	s.stats.SitesSeen = make(map[string]int64)
-	s.stats.SitesHit = make(map[string]int64)
 	s.stats.Fingerprint = 0xcbf29ce484222325
 	s.ms = 1_700_000_000_000
 	s.stats.ClockMin = s.ms
 	s.stats.ClockMax = s.ms
-	s.issued = make(map[[16]byte]bool)
-	s.onceTab = make(map[uintptr]*onceState)
 	cur = s
 }
 
@@ -173,6 +237,9 @@ func End() Stats {
 		s.stats.TapeUsed = s.tape
 	}
 	s.stats.ClockMs = s.stats.ClockMax - s.stats.ClockMin
+	s.stats.Faults = s.faults.toMap()
+	s.stats.SitesSeen = s.sitesSeen.toMap()
+	s.stats.SitesHit = s.sitesHit.toMap()
 	return s.stats
 }
 
@@ -224,7 +291,7 @@ func (s *sim) event(site, kind string, choice int64) {
 }
 
 //go:norace
-func (s *sim) fault(kind string) { s.stats.Faults[kind]++ }
+func (s *sim) fault(kind string) { s.faults.add(kind, 1) }
 
 // order decides the iteration order of one map traversal: nil = canonical
 // (sorted) order, otherwise a permutation of 0..n-1.
@@ -235,9 +302,8 @@ func order(site string, n int) []int {
 	if s == nil || n < 2 {
 		return nil
 	}
-	occ := s.occ[site]
-	s.occ[site] = occ + 1
-	s.stats.SitesSeen[site]++
+	occ := int(s.occ.add(site, 1)) - 1
+	s.sitesSeen.add(site, 1)
 	for i := range s.cfg.Policies {
 		p := &s.cfg.Policies[i]
 		if p.Site != "" && !strings.Contains(site, p.Site) {
@@ -248,7 +314,7 @@ func order(site string, n int) []int {
 		}
 		perm := policyPerm(p, n)
 		if perm != nil {
-			s.stats.SitesHit[site]++
+			s.sitesHit.add(site, 1)
 			s.fault("map." + p.Mode)
 			s.event(site, "policy."+p.Mode, int64(p.K))
 		}
@@ -295,7 +361,7 @@ func order(site string, n int) []int {
 		s.fault("map.lastfirst")
 		s.event(site, "map.lastfirst", 0)
 	}
-	s.stats.SitesHit[site]++
+	s.sitesHit.add(site, 1)
 	return perm
 }
 
@@ -369,8 +435,14 @@ func Run(fns []func()) {
 	}
 	s.tasks = make([]taskState, len(fns))
 	s.turn = -1
+	// The only happens-before edges the simulator itself creates: driver ->
+	// task at goroutine creation, and task exit -> driver through this
+	// WaitGroup (so the harness may read what the tasks produced). Nothing
+	// orders one task with another.
+	var joined sync.WaitGroup
+	joined.Add(len(fns))
 	for i, f := range fns {
-		go taskMain(s, i, f)
+		go taskMain(s, i, f, &joined)
 	}
 	// pick the first task from the tape
 	first := int(s.draw(uint32(len(fns))))
@@ -379,19 +451,22 @@ func Run(fns []func()) {
 	for s.turn != -2 {
 		runtime.Gosched()
 	}
+	joined.Wait()
 	s.tasks = nil
 }
 
 //go:norace
-func taskMain(s *sim, id int, f func()) {
+func taskMain(s *sim, id int, f func(), joined *sync.WaitGroup) {
 	for s.turn != id {
 		if s.aborted {
+			joined.Done()
 			s.exitTask(id)
 			return
 		}
 		runtime.Gosched()
 	}
 	runTask(f)
+	joined.Done()
 	s.exitTask(id)
 }
 
